@@ -450,6 +450,50 @@ def check_array_methods(seed):
     return out
 
 
+def check_wide_aggregates(k):
+    """aggregates over k items (k around 256, 512, 1024): one item at the first / middle / last position decides the value
+    (one-hot / one-cold / one duplicate); function form over a list, over an array plus extra items, and the array methods.
+    yields (key, failure-or-None)"""
+    from cspuz import Solver, count_true, fold_or, fold_and, alldifferent
+    from cspuz.array import BoolArray1D, BoolArray2D, IntArray1D
+    s = Solver()
+    xs = [s.bool_var() for _ in range(k)]
+    ys = [s.int_var(0, k) for _ in range(k)]
+    forms = [("count_true(list)", count_true(xs), "count"), ("count_true(BoolArray1D)", count_true(BoolArray1D(xs)), "count"),
+             ("BoolArray1D.count_true()", BoolArray1D(xs).count_true(), "count"),
+             ("count_true(list[:-1], last)", count_true(xs[:-1], xs[-1]), "count"),
+             ("count_true(list, True)", count_true(xs, True), "count+1"),
+             ("fold_or(list)", fold_or(xs), "or"), ("BoolArray1D.fold_or()", BoolArray1D(xs).fold_or(), "or"),
+             ("fold_and(list)", fold_and(xs), "and"), ("BoolArray1D.fold_and()", BoolArray1D(xs).fold_and(), "and"),
+             ("alldifferent(list)", alldifferent(ys), "alldiff"), ("IntArray1D.alldifferent()", IntArray1D(ys).alldifferent(), "alldiff")]
+    if k % 16 == 1:
+        sq = BoolArray2D(xs[:-1], (16, (k - 1) // 16))
+        forms += [("count_true(BoolArray2D, extra)", count_true(sq, xs[-1]), "count"), ("fold_or(BoolArray2D, extra)", fold_or(sq, xs[-1]), "or")]
+    ps = sorted({0, 1, k // 2, k - 2, k - 1})
+    for (label, node, sem) in forms:
+        bad = None
+        for p in ps:
+            for hot in (True, False):
+                asg = {}
+                for i, x in enumerate(xs):
+                    asg[x.id] = (i == p) == hot
+                q = p + 1 if p + 1 < k else p - 1
+                for i, y in enumerate(ys):
+                    asg[y.id] = q if (i == p and hot) else i
+                nt = sum(1 for x in xs if asg[x.id])
+                want = {"count": nt, "count+1": nt + 1, "or": nt > 0, "and": nt == k, "alldiff": not hot}[sem]
+                try:
+                    got = den.ev(node, asg)
+                except Exception as e:
+                    got = "error %s: %s" % (type(e).__name__, e)
+                if got != want or type(got) is not type(want):
+                    bad = "%s over %d items, deciding item at position %d (%s): evaluates to %r, expected %r" % (label, k, p, "one-hot" if hot else "one-cold", got, want)
+                    break
+            if bad:
+                break
+        yield "%s#%d" % (label, k), (dict(kind="wide-aggregate", detail=bad) if bad else None)
+
+
 def all_cases(tier):
     cases = []
     for form in list(BIN) + list(EQS):
@@ -530,6 +574,14 @@ def _w(args):
                     f["case"] = [name, seed]
                     f["key"] = key
                     out["fails"].append(f)
+        elif kind == "wide":
+            for k in payload:
+                for key, f in check_wide_aggregates(k):
+                    out["n"] += 1
+                    if f:
+                        f["case"] = ["wide", k]
+                        f["key"] = key
+                        out["fails"].append(f)
         else:
             for seed in payload:
                 for key, f in check_array_methods(seed):
@@ -566,6 +618,9 @@ def run(rep, tier, seed, nproc=8):
     hs = [(name, seed * 100000 + k) for k in range(nh) for name in ("count_true", "fold_or", "fold_and", "alldifferent")]
     tasks += [("helpers", hs[i::16]) for i in range(16)]
     tasks += [("methods", [seed * 100 + k]) for k in range(8 if tier == "quick" else 40)]
+    wide = [255, 256, 257, 513, 1025] if tier == "quick" else [63, 64, 65, 127, 128, 129, 255, 256, 257, 258, 511, 512, 513, 769, 1023, 1024, 1025, 2049, 4097]
+    tasks += [("wide", [k]) for k in wide]
+    rep.coverage["wide_aggregates_items"] = wide
     seen = set()
     with ProcessPoolExecutor(nproc) as ex:
         for r in ex.map(_w, tasks):
@@ -595,6 +650,9 @@ def replay(payload):
     elif c[0] == "methods":
         fs = [f for _, f in check_array_methods(int(c[1])) if f]
         key, f = "methods", (fs[0] if fs else None)
+    elif c[0] == "wide":
+        fs = [f for _, f in check_wide_aggregates(int(c[1])) if f]
+        key, f = "wide", (fs[0] if fs else None)
     else:
         key, f = check_helper(c[0], int(c[1]))
     print("replay", key, "->", f or "holds")
